@@ -114,6 +114,29 @@ theorem strict_json_counterexample (h : NemoVerif.Generated.C11.dumpsAllowNan = 
     ∧ encode (.list [.flt .nan]) = .error .valueError := by
   simp [encode, encodeKvs, encodeVals, encodeList, allStr, Key.isStr, dumpFlt, Flt.isFinite, h, bind, Except.bind]
 
+/-- text layer: the three non-standard tokens CPython writes for the non-finite floats are read back as the same float,
+    they are pairwise different, and finite floats (incl. `-0.0`) never use them -/
+theorem nonfinite_tokens_roundtrip (f : Flt) :
+    (f.isFinite = false → (nonFiniteToken f).bind parseConstant = some f)
+    ∧ (f.isFinite = true → nonFiniteToken f = none) := by
+  cases f with
+  | inf neg => cases neg <;> simp [Flt.isFinite, nonFiniteToken, parseConstant]
+  | _ => simp [Flt.isFinite, nonFiniteToken, parseConstant]
+
+theorem nonfinite_tokens_injective (f g : Flt) (t : String) (hf : nonFiniteToken f = some t) (hg : nonFiniteToken g = some t) : f = g := by
+  have h1 := (nonfinite_tokens_roundtrip f).1
+  have h2 := (nonfinite_tokens_roundtrip g).1
+  cases hfin : f.isFinite
+  · cases hgin : g.isFinite
+    · have a := h1 hfin; have b := h2 hgin
+      rw [hf] at a; rw [hg] at b
+      simp only [Option.bind_some] at a b
+      rw [a] at b; injection b
+    · have := (nonfinite_tokens_roundtrip g).2 hgin; rw [this] at hg; cases hg
+  · have := (nonfinite_tokens_roundtrip f).2 hfin; rw [this] at hf; cases hf
+
+example : (nonFiniteToken (.inf true)).bind parseConstant = some (.inf true) := (nonfinite_tokens_roundtrip _).1 rfl
+
 /-- the five kinds of float are pairwise different values of the model (so "comes back unchanged" distinguishes
     `-0.0` from `0.0` and `inf` from `-inf`) -/
 example : (Flt.fin 0 0 ≠ .negZero) ∧ (Flt.inf true ≠ .inf false) ∧ (Flt.nan ≠ .inf false) := by decide
